@@ -5,7 +5,7 @@ COMMON_ASSUME = [
 ]
 PROPS = {
     "C03": {
-        "suites": ["c03"],
+        "suites": ["c03", "scope-c04"],
         "assumptions": COMMON_ASSUME + [
             "sort.Sort returns a permutation sorted by Less (modelled by merge sort; theorems hold for the sorted permutation)",
             "float64 comparison is IEEE-754 (modelled on bit patterns through a sign-magnitude key)",
@@ -21,7 +21,7 @@ PROPS = {
         "trusted_base": ["sync.Pool buffer recycling is not modelled; its independence is exercised by 16 concurrent goroutines per 40th case"],
     },
     "C01": {
-        "suites": ["c01"],
+        "suites": ["c01", "scope-c07seq", "c08sched"],
         "assumptions": COMMON_ASSUME + [
             "a report pass reaches a counter only through counter.report / cachedReport / histogram.report (tie facts), so 'visit' = swap then optional reporter call",
             "lifting from one cell to 'per name and tags': a pass visits each registered counter once (C04/C07 cover registration and naming)",
@@ -137,7 +137,7 @@ PROPS = {
         ],
     },
     "C17": {
-        "suites": ["c17", "c17seq"],
+        "suites": ["c17", "c17seq", "c17race"],
         "timeout": {"quick": 300, "thorough": 1800},
         "assumptions": COMMON_ASSUME + [
             "client_golang v1.11.0 is modelled by the slice of its contract tally relies on (Registry.Register for a single valid descriptor without constant labels: fails iff the fully-qualified name is registered, as AlreadyRegisteredError when help and label names agree, else 'previously registered ... different label names or a different help string'; vec.With get-or-create; Counter.Add, Gauge.Set, histogram Observe via sort.SearchFloat64s with cumulative `le` buckets on Write, summary sample count); the differential run exercises the real library on every case",
@@ -160,7 +160,7 @@ PROPS = {
         "trusted_base": ["Model.Scope is tied to scope.go / scope_registry.go by the differential on random programs (plus the facts on fullyQualifiedName and the report call)"],
     },
     "C10": {
-        "suites": ["scope-c10", "c10instr"],
+        "suites": ["scope-c10", "c10instr", "c10race"],
         "assumptions": COMMON_ASSUME + [
             "Model.Scope is sequential: one API call at a time (concurrency of these paths is C01/C02/C07/C09)",
             "the registry shard of a request is observed through a shim and given to the model as an input",
